@@ -3,22 +3,30 @@
 From Coq Require Import List String.
 From LibCSD Require Import PoolSkeleton.
 From LibCSD.gen Require Import Pool_gen.
+Import ListNotations.
+Local Open Scope string_scope.
 
-Theorem C10_worker_skeleton_is_modelled : worker_skeleton_gen = worker_skeleton_fixed.
+Theorem C10_worker_skeleton_is_modelled : skeleton_refines worker_skeleton_gen worker_skeleton_fixed = true.
 Proof. vm_compute. reflexivity. Qed.
 
-Theorem C09_blocks_skeleton_is_modelled : blocks_skeleton_gen = blocks_skeleton_ref.
+Theorem C09_blocks_skeleton_is_modelled : skeleton_refines blocks_skeleton_gen blocks_skeleton_ref = true.
 Proof. vm_compute. reflexivity. Qed.
 
-Theorem C11_worker_skeleton_is_modelled : worker_skeleton_gen = worker_skeleton_fixed.
+Theorem C11_worker_skeleton_is_modelled : skeleton_refines worker_skeleton_gen worker_skeleton_fixed = true.
 Proof. vm_compute. reflexivity. Qed.
 
-Theorem C11_blocks_skeleton_is_modelled : blocks_skeleton_gen = blocks_skeleton_ref.
+Theorem C11_blocks_skeleton_is_modelled : skeleton_refines blocks_skeleton_gen blocks_skeleton_ref = true.
 Proof. vm_compute. reflexivity. Qed.
 
 Theorem C11_sync_objects_are_modelled : sync_objects_gen = sync_objects_ref.
 Proof. vm_compute. reflexivity. Qed.
 
 (* the pinned skeleton differs from the fixed one exactly in the two producer methods *)
-Theorem C10_pinned_skeleton_differs : worker_skeleton_pinned <> worker_skeleton_fixed.
-Proof. vm_compute. discriminate. Qed.
+Theorem C10_pinned_skeleton_differs : skeleton_refines worker_skeleton_pinned worker_skeleton_fixed = false.
+Proof. vm_compute. reflexivity. Qed.
+
+(* the refinement tolerates extra notifications only: dropping one, or moving the push out of the lock, is rejected *)
+Example C10_refinement_rejects_dropped_notify :
+  events_refine ["Open"; "LockScope shared_mutex"; "Call queue.add_task"; "Close"; "Close"]
+                ["Open"; "Open"; "LockScope shared_mutex"; "Call queue.add_task"; "Close"; "NotifyAll queue_cv"; "Close"] = false.
+Proof. vm_compute. reflexivity. Qed.
